@@ -6,6 +6,9 @@ From PD Require Import Model.Tracking.
 
 Local Open Scope nat_scope.
 
+Definition did_eq_dec : forall a b : did, {a = b} + {a <> b}.
+Proof. decide equality; apply Nat.eq_dec. Defined.
+
 (* ------------------------------------------------------------------------------------------ *)
 (* upd                                                                                         *)
 (* ------------------------------------------------------------------------------------------ *)
